@@ -5,7 +5,7 @@
    model of coq/C17, lexer model, expression-ladder model): termination measures, fuel that
    never runs out, progress of every loop.  Memory safety of the C++ and the statement and
    declaration parsers are outside every theorem here (sanitizer runs in harness/props/c10.py). *)
-From Coq Require Import List Arith Bool Ascii String Lia.
+From Coq Require Import List Arith NArith Bool Ascii String Lia.
 From Cb Require Import C17.Model C10.Model C10.Lexer C10.ExprParse C10.LexerTotal C10.ExprTotal C10.PreprocTotal.
 Import ListNotations.
 
@@ -33,7 +33,7 @@ Proof. exact lex_more_fuel_l. Qed.
 Print Assumptions lex_fuel_irrelevant.
 
 (* ------------------------------------------------------------------ expression ladder *)
-(* recursion depth K*(|tokens|+1), K = 14, is enough for every token list *)
+(* recursion depth K*(|tokens|+1), K = 15 (= ladder height 10 + 5), is enough for every token list *)
 Theorem parse_expr_total_linear : forall (ts : list tok) f,
   K * (List.length ts + 1) <= f -> p_assign f ts <> Fuel.
 Proof. exact parse_total_l. Qed.
@@ -81,10 +81,20 @@ Proof. intros. apply search_fuel_irrelevant_l; auto; lia. Qed.
 Print Assumptions preproc_search_fuel_irrelevant.
 
 (* the per-macro replacement loop ends within |line| + 1 iterations *)
-Theorem preproc_sweep_fuel_sufficient : forall name body s ch k, name <> [] ->
-  sweep (S (List.length s) + k) name body s 0 ch = sweep (S (List.length s)) name body s 0 ch.
+Theorem preproc_sweep_fuel_sufficient : forall limit name body s ch k, name <> [] ->
+  sweep (S (List.length s) + k) limit name body s 0 ch = sweep (S (List.length s)) limit name body s 0 ch.
 Proof. intros. apply sweep_fuel_sufficient_l; auto; lia. Qed.
 Print Assumptions preproc_sweep_fuel_sufficient.
+
+(* the expanded line is at most |line| + 16 KiB + the longest macro body long (growth bound of
+   expandMacros, repair 6b05a50 of the former finding C10-selfref-macro-exponential): with at most
+   100 passes and at most |text|+1 iterations per macro and pass, expansion work is bounded by a
+   polynomial in |line| and the table, never by 2^100 *)
+Theorem preproc_expand_size_bounded : forall t line,
+  (N.of_nat (List.length (fst (expand t line))) <=
+   N.of_nat (List.length line) + max_growth + N.of_nat (max_body t))%N.
+Proof. exact expand_size_bounded_l. Qed.
+Print Assumptions preproc_expand_size_bounded.
 
 (* #define never creates an object-like macro with an empty name, and process preserves that *)
 Theorem preproc_define_name_nonempty : forall line n b,
@@ -97,21 +107,15 @@ Theorem preproc_table_names_nonempty : forall t file lines,
 Proof. exact process_names_nonempty_l. Qed.
 Print Assumptions preproc_table_names_nonempty.
 
-(* finding C10-empty-macro-name: with an empty name (main -D=5) the loop never advances *)
+(* why pass must skip a macro with an empty name (it does since e201f6d; before, main -D=5 hung):
+   with an empty name the find loop never advances, so termination of the loop itself, without
+   the non-emptiness hypothesis of preproc_search_total, is refuted *)
 Theorem preproc_search_total_refuted :
   ~ forall name s rs pos, exists f, search3 f name s rs pos <> SFuel.
 Proof.
   intros H. destruct (H [] line_a [] 0) as [f Hf]. apply Hf. apply search_empty_name_spins.
 Qed.
 Print Assumptions preproc_search_total_refuted.
-
-(* finding C10-selfref-macro-exponential: a pass may double the line (all occurrences are
-   replaced, the inserted text is rescanned in the next pass), so 100 passes are no size bound *)
-Definition selfref : table := [ {| mname := s2l "A"; mbody := s2l "A A"; mfn := false |} ].
-Theorem preproc_expand_size_linear_refuted :
-  forallb (fun k => List.length (passes k selfref (s2l "A")) =? 2 ^ (k + 1) - 1) (seq 0 8) = true.
-Proof. vm_compute. reflexivity. Qed.
-Print Assumptions preproc_expand_size_linear_refuted.
 
 (* the hypotheses are satisfiable / the models compute *)
 Example dash_d_empty_name : fst (dash_d (s2l "=5")) = [] /\ snd (dash_d (s2l "=5")) = s2l "5".
@@ -122,8 +126,8 @@ Example lex_sample : map tname (lex_all (Lexer.s2l "a<<=1; // c")) =
   ["TOK_IDENTIFIER"; "TOK_LSHIFT_ASSIGN"; "TOK_NUMBER"; "TOK_SEMICOLON"; "TOK_EOF"]%string.
 Proof. vm_compute. reflexivity. Qed.
 Example verdict_sample :
-  map (fun s => expr_verdict (Lexer.s2l s)) ["a + b * 2"; "a +"; "a ? b : c"; "f(a, b)[3].x++"; "((a))"]%string =
-  [VAccept; VReject; VAccept; VAccept; VReject].
+  map (fun s => expr_verdict (Lexer.s2l s)) ["a + b * 2"; "a +"; "a ? b : c"; "f(a, b)[3].x++"; "((a)) - 1"]%string =
+  [VAccept; VReject; VAccept; VAccept; VAccept].
 Proof. vm_compute. reflexivity. Qed.
 Example chain_is_accepted : exists e, parse (chain 5 ++ [TRP; TSemi]) = Ok (e, [TRP; TSemi]).
 Proof. apply chain_parses. lia. Qed.
